@@ -23,6 +23,18 @@
 //	                             any revision of the release operated on
 //	delete-of-foreign-release-record  a storage delete of a record that is not this release's
 //
+//	mutated-foreign-object       (every op of every family, without take-ownership) a successful
+//	                             PATCH/PUT/DELETE of an object that existed and did not carry this
+//	                             release's ownership metadata right before the request (sim PreOwner),
+//	                             unless it is a hook object or is named by the manifests the op started
+//	                             from (deployed + latest revision: "updated, not created")
+//
+// "race": a foreign object X appears after the pre-flight check passed: stored out of band at the
+// moment the pre-install / pre-upgrade hook's create request is received (install, upgrade adding
+// X), or between an upgrade that dropped X and a rollback to the revision naming X. The op may
+// fail or succeed but must not patch, replace or delete X (mutated-foreign-object on the request
+// log, planted-object-changed on the store). All 9 ownership classes x resource kinds.
+//
 // "hist": the drift histories of C02 (gen.DriftCase: install/upgrade/rollback/uninstall with
 // failing ops, atomic, cleanup-on-fail, force, hooks with delete policies, out-of-band edits,
 // bystanders and a second release) with the DELETE-target monitor on every op (successful or
@@ -70,7 +82,7 @@ func init() {
 	core.Register(&core.Prop{
 		ID:    "C07",
 		Level: "exploration",
-		Rule: "place: every assignment of the 9 ownership classes to the to-be-created resources of charts with 1-2 (quick) / 1-3 (thorough) resource slots is enumerated, larger charts (up to 6 slots) are sampled; the enumerated placements are repeated, and the sampled ones mixed, with slots whose manifest document sets metadata.namespace to a second namespace where the pre-existing object lives, and with --atomic; each placement runs under install, install --replace over an uninstalled release with history, and upgrade adding the resources, with and without take-ownership, on memory/secrets/configmaps storage. hist: seeded drift histories shared with C02 under the DELETE-target and ownership-metadata monitors. " +
+		Rule: "place: every assignment of the 9 ownership classes to the to-be-created resources of charts with 1-2 (quick) / 1-3 (thorough) resource slots is enumerated, larger charts (up to 6 slots) are sampled; the enumerated placements are repeated, and the sampled ones mixed, with slots whose manifest document sets metadata.namespace to a second namespace where the pre-existing object lives, and with --atomic; each placement runs under install, install --replace over an uninstalled release with history, and upgrade adding the resources, with and without take-ownership, on memory/secrets/configmaps storage. race: for every ownership class and 3 (quick) / all 14 (thorough) resource kinds, a foreign object is planted while the pre-install/pre-upgrade hook is being created, or between an upgrade that dropped the resource and a rollback to the revision naming it. hist: seeded drift histories shared with C02 under the DELETE-target, foreign-mutation (PreOwner) and ownership-metadata monitors. " +
 			"distinct_nontrivial counts distinct (scenario, take-ownership, atomic, sorted multiset of ownership classes, number of other-namespace slots, verdict) tuples plus distinct (op kind+flags, outcome, #deletes) shapes of history ops that deleted something.",
 		Assumptions: []string{
 			"the simulated API server applies requests like a real API server and logs every request with the operation's tag; release storage goes through the same log",
@@ -175,6 +187,18 @@ func genCases(seed int64, tier string) []core.Case {
 		}
 		addNS(pickSlots(n), cl, other, rng.Intn(4) == 0)
 	}
+	// race: every ownership class on a few (quick) / all (thorough) resource kinds
+	perClass := 3
+	if tier == "thorough" {
+		perClass = len(gen.PolPool)
+	}
+	for cl := 0; cl < nc; cl++ {
+		perm := rng.Perm(len(gen.PolPool))
+		for j := 0; j < perClass; j++ {
+			i := len(out)
+			out = append(out, core.Case{ID: fmt.Sprintf("race%d", i), Data: core.J(caseData{Mode: "race", Slots: []int{perm[j]}, Classes: []int{cl}, Driver: drivers[i%3]})})
+		}
+	}
 	for h := 0; h < hist; h++ {
 		drv := drivers[h%3]
 		dc := gen.NewDriftCase(rng, 5+rng.Intn(4), drv)
@@ -199,6 +223,8 @@ func post(a *core.Agg) string {
 	need("written_manifest_objects_metadata_checked", 500)
 	need("delete_targets_checked", 200)
 	need("hist_ops_monitored", 300)
+	need("mutation_pre_owners_checked", 1000)
+	need("race_foreign_objects_checked", 40)
 	need("placements_with_explicit_other_namespace", 200)
 	if len(msgs) > 0 {
 		return "monitors observed too little: " + strings.Join(msgs, "; ")
@@ -227,6 +253,8 @@ func run(c core.Case, verbose bool) core.Result {
 		runPlace(&res, d, verbose)
 	case "hist":
 		runHist(&res, d, verbose)
+	case "race":
+		runRace(&res, d, verbose)
 	}
 	return res
 }
@@ -284,38 +312,11 @@ func prepopulate(w *env.World, d caseData) map[int]string {
 			}
 			continue
 		}
-		var o map[string]any
-		if err := yaml.Unmarshal([]byte(gen.PolYAML(sl.Kind, slotName(s), "pre", `"pre"`, nil)), &o); err != nil {
-			panic(err)
-		}
-		md := o["metadata"].(map[string]any)
-		md["namespace"] = ns
+		objNS := ns
 		if d.inOtherNS(i) {
-			md["namespace"] = otherNS
+			objNS = otherNS
 		}
-		labels := md["labels"].(map[string]any)
-		ann := map[string]any{}
-		md["annotations"] = ann
-		labels[ref.ManagedByLabel] = "Helm"
-		ann[ref.RelNameAnno] = rel
-		ann[ref.RelNamespaceAnn] = ns
-		switch cl {
-		case 1:
-			delete(labels, ref.ManagedByLabel)
-			delete(md, "annotations")
-		case 3:
-			delete(labels, ref.ManagedByLabel)
-		case 4:
-			delete(ann, ref.RelNameAnno)
-		case 5:
-			delete(ann, ref.RelNamespaceAnn)
-		case 6:
-			labels[ref.ManagedByLabel] = "Tiller"
-		case 7:
-			ann[ref.RelNameAnno] = gen.DriftOther
-		case 8:
-			ann[ref.RelNamespaceAnn] = otherNS
-		}
+		o := preObject(s, cl, objNS)
 		k, err := w.Sim.Put(o)
 		if err != nil {
 			panic(err)
@@ -323,6 +324,41 @@ func prepopulate(w *env.World, d caseData) map[int]string {
 		keys[i] = k
 	}
 	return keys
+}
+
+// preObject builds a pre-existing object for pool slot s in ownership class cl (not clAbsent).
+func preObject(s, cl int, objNS string) map[string]any {
+	sl := gen.PolPool[s]
+	var o map[string]any
+	if err := yaml.Unmarshal([]byte(gen.PolYAML(sl.Kind, slotName(s), "pre", `"pre"`, nil)), &o); err != nil {
+		panic(err)
+	}
+	md := o["metadata"].(map[string]any)
+	md["namespace"] = objNS
+	labels := md["labels"].(map[string]any)
+	ann := map[string]any{}
+	md["annotations"] = ann
+	labels[ref.ManagedByLabel] = "Helm"
+	ann[ref.RelNameAnno] = rel
+	ann[ref.RelNamespaceAnn] = ns
+	switch cl {
+	case 1:
+		delete(labels, ref.ManagedByLabel)
+		delete(md, "annotations")
+	case 3:
+		delete(labels, ref.ManagedByLabel)
+	case 4:
+		delete(ann, ref.RelNameAnno)
+	case 5:
+		delete(ann, ref.RelNamespaceAnn)
+	case 6:
+		labels[ref.ManagedByLabel] = "Tiller"
+	case 7:
+		ann[ref.RelNameAnno] = gen.DriftOther
+	case 8:
+		ann[ref.RelNamespaceAnn] = otherNS
+	}
+	return o
 }
 
 func recsEqual(a, b []env.Rec) bool {
@@ -491,6 +527,7 @@ func runPlace(res *core.Result, d caseData, verbose bool) {
 				checkMetadata(res, events, s1, l1, scenario, detail)
 			}
 			checkDeletes(res, events, nt.Snapshot(), scenario, detail)
+			checkForeignMutations(res, events, baseKeys(l0), nt.HookSnapshot(), takeOwn, scenario, detail)
 			if res.Sample == nil && len(offenders) > 0 {
 				res.Sample = map[string]any{"mode": "place", "driver": d.Driver, "scenario": scenario, "take_ownership": takeOwn, "resources": describe(), "expected": map[bool]string{true: "refuse", false: "accept"}[expectRefuse], "observed_error": r.ErrString(), "requests_of_op": len(events)}
 			}
@@ -536,6 +573,50 @@ func checkMetadata(res *core.Result, events []sim.Event, s1 map[string]string, l
 			}
 			res.Add("ownership-metadata-missing", fmt.Sprintf("%s · %s · %s", opc, how, kc), "%s was %s by the op but: %s | %s", d, how, strings.Join(p, "; "), detail())
 		}
+	}
+}
+
+const ownOwner = "Helm|" + rel + "|" + ns
+
+// baseKeys: the objects named by the manifests the op starts from (the deployed revision and the
+// latest revision before the op). Updating or deleting those is "updated, not created".
+func baseKeys(l0 []env.Rec) map[string]bool {
+	var base []env.Rec
+	if d := ref.LatestDeployed(l0); d != nil {
+		base = append(base, env.Rec{Manifest: d.Manifest})
+	}
+	if t := ref.TopRec(l0); t != nil {
+		base = append(base, env.Rec{Manifest: t.Manifest})
+	}
+	return ref.ReleaseObjectKeys(nil, base, ns)
+}
+
+// checkForeignMutations: without take-ownership, no successful PATCH/PUT/DELETE may hit an object
+// that existed and did not carry this release's ownership metadata right before the request
+// (sim.Event.PreOwner) -- except hook objects (never stamped) and objects named by the manifests
+// the op starts from (don't-care zone "updated, not created").
+func checkForeignMutations(res *core.Result, events []sim.Event, base, hooks map[string]bool, takeOwn bool, opc string, detail func() string) {
+	if takeOwn {
+		return
+	}
+	for _, e := range events {
+		if e.Class != "mutation" || e.Code >= 300 || e.Injected || (e.Method != "PATCH" && e.Method != "PUT" && e.Method != "DELETE") {
+			continue
+		}
+		k := gen.EventKey(e)
+		if hooks[k] {
+			res.Stat("mutations_of_hook_objects_skipped", 1)
+			continue
+		}
+		res.Stat("mutation_pre_owners_checked", 1)
+		if e.PreOwner == "" || e.PreOwner == "-" || e.PreOwner == ownOwner {
+			continue
+		}
+		if base[k] {
+			res.Stat("mutations_of_unstamped_base_objects_dont_care", 1)
+			continue
+		}
+		res.Add("mutated-foreign-object", opc+" · "+e.Method, "%s %s/%s (ns %q) -> %d although the object carried ownership %q (managed-by|release-name|release-namespace) right before the request, the op did not request take-ownership, and the manifests the op started from do not name it | %s", e.Method, e.Kind, e.Name, e.NS, e.Code, e.PreOwner, detail())
 	}
 }
 
@@ -619,6 +700,7 @@ func runHist(res *core.Result, d caseData, verbose bool) {
 			class += ")"
 		}
 		n := checkDeletes(res, o.Events, o.Named, class, detail)
+		checkForeignMutations(res, o.Events, baseKeys(o.L0), o.NamedHooks, o.Step.Op.TakeOwnership, class, detail)
 		if o.Success() && opc != "uninstall" {
 			checkMetadata(res, o.Events, o.S1, o.L1, "hist: "+opc, detail)
 		}
@@ -645,4 +727,134 @@ func runHist(res *core.Result, d caseData, verbose bool) {
 		ops = append(ops, fmt.Sprintf("%s -> %s (%d deletes checked)", o.Step, outcome, n))
 	})
 	res.Sample = map[string]any{"mode": "hist", "driver": dc.Driver, "ops": ops}
+}
+
+// ---------------------------------------------------------------- race
+
+// runRace: a foreign object X shows up where the release is about to create X, after the
+// pre-flight ownership check has passed:
+//
+//	install / upgrade adding X, with a pre-install / pre-upgrade hook: the harness stores X out of
+//	  band at the moment the hook's create request is received;
+//	rollback: revision 1 names X, revision 2 drops it (X is deleted), a stranger creates X, then
+//	  rollback to revision 1 (rollback has no pre-flight check at all).
+//
+// The op may fail or succeed; in no case may it patch, replace or delete X (mutated-foreign-object
+// on the request log, planted-object-changed on the store).
+func runRace(res *core.Result, d caseData, verbose bool) {
+	s, cl := d.Slots[0], d.Classes[0]
+	sl := gen.PolPool[s]
+	hook := gen.HookSpec{Name: "prehook", Kind: "ConfigMap", Events: []string{"pre-install", "pre-upgrade"}, Policies: []string{"before-hook-creation"}}
+	mk := func(withX, withHook bool, content string) gen.Files {
+		f := gen.Files{
+			"Chart.yaml":          "apiVersion: v2\nname: race\nversion: 0.1.0\n",
+			"values.yaml":         "k: v\n",
+			"templates/base.yaml": gen.PolYAML("ConfigMap", "{{ .Release.Name }}-base", content, "{{ .Values.k | quote }}", nil),
+		}
+		if withX {
+			f["templates/x.yaml"] = gen.PolYAML(sl.Kind, "{{ .Release.Name }}-"+sl.Suffix, "c1", "{{ .Values.k | quote }}", nil)
+		}
+		if withHook {
+			f["templates/prehook.yaml"] = hook.YAML("{{ .Release.Name }}-prehook")
+		}
+		return f
+	}
+	for _, scenario := range []string{"install, object appears during the pre-install hook", "upgrade adding the resource, object appears during the pre-upgrade hook", "rollback to a revision naming an object that appeared meanwhile"} {
+		if d.Only != "" && !strings.HasPrefix(scenario, d.Only) {
+			continue
+		}
+		w := env.NewWorld(d.Driver, ns)
+		gen.PutBystanders(w.Sim, 4)
+		nt := gen.TrackNames(w, rel, ns, "op")
+		planted := ""
+		plant := func() {
+			if cl == clAbsent || planted != "" {
+				return
+			}
+			k, err := w.Sim.Put(preObject(s, cl, ns))
+			if err != nil {
+				panic(err)
+			}
+			planted = k
+		}
+		var op env.Op
+		var ch gen.Files
+		switch {
+		case strings.HasPrefix(scenario, "install"):
+			op, ch = env.Op{Kind: "install"}, mk(true, true, "c1")
+		case strings.HasPrefix(scenario, "upgrade"):
+			w.Exec("pre-install", rel, env.Op{Kind: "install"}, mk(false, false, "c0").Build())
+			op, ch = env.Op{Kind: "upgrade"}, mk(true, true, "c1")
+			res.Evals++
+		default:
+			w.Exec("pre-install", rel, env.Op{Kind: "install"}, mk(true, false, "c1").Build())
+			w.Exec("pre-upgrade", rel, env.Op{Kind: "upgrade"}, mk(false, false, "c0").Build())
+			plant()
+			op, ch = env.Op{Kind: "rollback", ToRev: 1}, mk(false, false, "c0")
+			res.Evals += 2
+		}
+		if op.Kind != "rollback" {
+			inner := w.Sim.Gate
+			w.Sim.Gate = func(r *sim.Req) {
+				if r.Agent == "op" && r.Method == "POST" && r.Class == "mutation" && r.Name == rel+"-prehook" {
+					plant() // the pre-flight check has passed; the hook is being created
+				}
+				inner(r)
+			}
+		}
+		l0, _ := w.Ledger(rel)
+		nt.Add(l0)
+		r := w.Exec("op", rel, op, ch.Build())
+		res.Evals++
+		l1, _ := w.Ledger(rel)
+		nt.Add(l1)
+		events := w.Sim.Done("op")
+		detail := func() string {
+			return fmt.Sprintf("driver %s | %s | %s/%s planted as: %s | err=%q | ledger before [%s] after [%s]", d.Driver, scenario, sl.Kind, slotName(s), classNames[cl], r.ErrString(), env.LedgerString(l0), env.LedgerString(l1))
+		}
+		if verbose {
+			fmt.Printf("%s: %s/%s planted as %s (key %q): err=%q ledger [%s] -> [%s]\n", scenario, sl.Kind, slotName(s), classNames[cl], planted, r.ErrString(), env.LedgerString(l0), env.LedgerString(l1))
+			for _, e := range events {
+				if e.Class == "mutation" {
+					fmt.Printf("     %s %s/%s -> %d (pre-owner %q)\n", e.Method, e.Kind, e.Name, e.Code, e.PreOwner)
+				}
+			}
+		}
+		verdict := "op succeeded"
+		if r.Err != nil {
+			verdict = "op failed"
+		}
+		res.Stat("race_ops", 1)
+		if cl != clAbsent {
+			if planted == "" {
+				res.Inconclusive = "race scenario: the object was never planted (" + scenario + ")"
+				continue
+			}
+			res.Stat("race_objects_planted", 1)
+			if cl != clOwned {
+				res.Stat("race_foreign_objects_checked", 1)
+				before := preObject(s, cl, ns)
+				after := w.Sim.Get(planted)
+				switch {
+				case after == nil:
+					res.Add("planted-object-changed", scenario+" · deleted", "the foreign object was deleted by the op | %s", detail())
+				case len(ref.Subsumes(after, before, nil)) > 0 || ref.LiveLabelOr(after, ref.ManagedByLabel) != ref.LiveLabelOr(before, ref.ManagedByLabel) ||
+					ref.LiveAnnotationOr(after, ref.RelNameAnno) != ref.LiveAnnotationOr(before, ref.RelNameAnno) || ref.LiveAnnotationOr(after, ref.RelNamespaceAnn) != ref.LiveAnnotationOr(before, ref.RelNamespaceAnn):
+					b, _ := json.Marshal(after)
+					res.Add("planted-object-changed", scenario+" · modified", "the foreign object was modified by the op; now %s | %s", b, detail())
+				}
+				if r.Err == nil {
+					res.Stat("race_ops_succeeded_with_foreign_object_present", 1)
+				} else {
+					res.Stat("race_ops_failed_with_foreign_object_present", 1)
+				}
+			}
+		}
+		checkDeletes(res, events, nt.Snapshot(), scenario, detail)
+		checkForeignMutations(res, events, baseKeys(l0), nt.HookSnapshot(), false, scenario, detail)
+		res.Key("race|%s|%s|%s", scenario, classNames[cl], verdict)
+		if res.Sample == nil && cl != clAbsent && cl != clOwned {
+			res.Sample = map[string]any{"mode": "race", "driver": d.Driver, "scenario": scenario, "object": sl.Kind + "/" + slotName(s), "planted_as": classNames[cl], "observed_error": r.ErrString(), "requests_of_op": len(events)}
+		}
+	}
 }
